@@ -45,6 +45,24 @@ Fixpoint while_ret {S R} (fuel : nat) (body : S -> res (wout S R)) (s : S) : res
       end
   end.
 
+(* for x in v.drain(..) / for x in v: the elements in order *)
+Fixpoint for_in {S X} (l : list X) (body : X -> S -> res S) (s : S) : res S :=
+  match l with
+  | [] => Ok s
+  | x :: t => let* s' := body x s in for_in t body s'
+  end.
+
+(* usize `/` and `%` by a divisor that may be 0 *)
+Definition udiv (a b : nat) : res nat := if b =? 0 then Panic DivZero else Ok (a / b).
+Definition umod (a b : nat) : res nat := if b =? 0 then Panic DivZero else Ok (a mod b).
+
+(* handle.join().unwrap() of a scoped worker (value model: the worker is its computation): a worker that panicked makes
+   join() return Err, which unwrap() turns into a panic of the joining thread *)
+Definition join_unwrap {X} (h : res X) : res X := match h with Ok x => Ok x | Panic _ => Panic Unwrap end.
+
+(* the value of Vec::pop(): the last element, if any *)
+Definition last_opt {X} (l : list X) : option X := match rev l with [] => None | x :: _ => Some x end.
+
 (* Option::unwrap / Result::unwrap *)
 Definition unwrap_opt {X} (o : option X) : res X :=
   match o with Some x => Ok x | None => Panic Unwrap end.
